@@ -12,7 +12,7 @@ PROP = dict(
          'mismatching or malformed TPS; 8 move-numbering modes incl. none, every move, random, drifting, restarted; comments with braces, '
          'brackets, quotes, bytes >= 0x80 at any place; annotations; results anywhere; appended illegal or off-board moves; records that go on '
          'after the game end; BOM in a third) and directed end-game records (TPS tag of a populated, nearly finished board with move counter 1..3 incl. the opening-rule case, sizes 3..8 in turn, game over 1..2*size plies into the file, 1..10 further moves after the end, occasionally a Size tag contradicting the TPS), each with PositionAtMove(n, colour) for n = 0, every marker present and 1..max+2, both colours, '
-         'NoColor and negative n; plus mutations of those texts (cut inside a comment, truncated, bytes overwritten, slices deleted/duplicated), '
+         'NoColor and negative n; plus call histories on ONE parsed object (queries that exhaust the record, then AddMoves or appended ops - legal continuation moves, markers, comments - then queries into the extension and n = 0; answers compared with the naive walk over the extended record, with a freshly parsed copy of Render(), and with the model on the extended op list); plus mutations of those texts (cut inside a comment, truncated, bytes overwritten, slices deleted/duplicated), '
          'a fixed list of corner cases and random strings over the PTN alphabet. non-trivial = text that parses; distinct = distinct inputs',
     assumptions=['tokens shorter than bufio.Scanner\'s 64 KiB limit (longer ones are a Scanner error, not modelled)',
                  'stacks at most 64 high (representation limit of the engine)',
